@@ -1,24 +1,26 @@
 #!/bin/bash
 # usage: matrix.sh [seed-dir ...]
-# For every seeded change: make a scratch worktree of /repo, apply the patch there, run every property's quick check against it
-# (mqttcheck -repo), remove the worktree. /repo itself and /verif/evidence are left untouched. Prints which properties fire.
+# For every seeded change: make a scratch worktree of /repo, apply the patch there, judge all twenty properties on it
+# (mqttcheck -allprops -repo; same verdicts as twenty separate quick checks), remove the worktree. /repo itself and
+# /verif/evidence are left untouched. Prints which properties fire. MQTTCHECK_BIN overrides the binary.
 export GOFLAGS=-mod=mod GOPROXY=off GOSUMDB=off GOTOOLCHAIN=local
-(cd /verif/checker && go build -o /verif/bin/mqttcheck .) || exit 2
+if [ -z "$MQTTCHECK_BIN" ]; then
+  (cd /verif/checker && go build -o /verif/bin/mqttcheck .) || exit 2
+  export MQTTCHECK_BIN=/verif/bin/mqttcheck
+fi
 seeds="$@"; [ -z "$seeds" ] && seeds=$(ls -d /verif/seeded/*/)
-props="C01 C02 C03 C04 C05 C06 C07 C08 C09 C10 C11 C12 C13 C14 C15 C16 C17 C18 C19 C20"
 one() {
   d="$1"; id=$(basename "$d"); want=${id%%-*}
   wt="/tmp/mx-$id"; rm -rf "$wt"
-  git -C /repo worktree add -q --detach "$wt" HEAD 2>/dev/null || { echo "$id: worktree failed"; return; }
+  for try in 1 2 3 4 5; do git -C /repo worktree add -q --detach "$wt" HEAD 2>/dev/null && break; sleep 1; done  # (concurrent adds contend for a lock)
+  [ -d "$wt" ] || { echo "$id: worktree failed"; return; }
   if ! git -C "$wt" apply "$d/patch.diff" 2>/dev/null; then echo "$id: PATCH FAILS"; git -C /repo worktree remove --force "$wt"; return; fi
-  fired=""
-  for p in $props; do
-    /verif/bin/mqttcheck -property $p -repo "$wt" -verif "/tmp/mxv-$id" >/dev/null 2>&1 || fired="$fired$p "
-  done
+  out=$("$MQTTCHECK_BIN" -allprops -repo "$wt" -verif "/tmp/mxv-$id" 2>&1)
+  fired=$(echo "$out" | awk '/^ALLPROPS-END/ && $3 != 0 {printf "%s ", $2}')
   git -C /repo worktree remove --force "$wt"; rm -rf "/tmp/mxv-$id"
   case " $fired" in *" $want "*) st=CAUGHT;; *) st=MISSED;; esac
   echo "$id: $st   fired: $fired"
 }
-export -f one; export props
-printf '%s\n' $seeds | xargs -P 6 -I{} bash -c 'one {}'
+export -f one
+printf '%s\n' $seeds | xargs -P 14 -I{} bash -c 'one {}'
 git -C /repo worktree prune
